@@ -1,0 +1,9 @@
+//go:build !verif
+
+package preprocess
+
+import "github.com/angelsolaorbaiceta/inkfem/contracts"
+
+// verifSliceGate is a verification hook which does nothing unless the binary is built
+// with the verif tag.
+func verifSliceGate(id contracts.StrID) func() { return func() {} }
